@@ -206,3 +206,80 @@ func Harness_C13_TimeoutProgressiveInvocation() {
 	vAssert("nothing-after-the-timeout", len(caller.vDrain()) == 0)
 	vCover("progressive-invocation-timeout(virtual-time)")
 }
+
+// "never after the call already completed": the callee has answered finally,
+// but the call's bookkeeping is kept a little longer - the RESULT is being
+// retried towards a caller whose queue is full, or the caller's progressive
+// call invocation has not sent its last chunk yet. The timeout of the call
+// expires in that window: no INTERRUPT, no timeout error, the result stands.
+//
+//verif:virtual-clock
+func Harness_C13_NoTimeoutAfterFinalYield() {
+	r := vNewRouter(&Config{RealmConfigs: []*RealmConfig{{URI: "realm1", AnonymousAuth: true}}})
+	callee := vAttach(r, "realm1", nil, 64)
+	vAssert("callee-attached", callee != nil)
+	if callee == nil {
+		return
+	}
+	callee.send(&wamp.Register{Request: 1, Procedure: "p"})
+	callee.drain()
+	if vBool("caller-queue-full-at-the-final-yield") {
+		caller := vAttach(r, "realm1", nil, 1)
+		vAssert("caller-attached", caller != nil)
+		if caller == nil {
+			return
+		}
+		caller.send(&wamp.Call{Request: 10, Procedure: "p", Options: wamp.Dict{"receive_progress": true, "timeout": int64(2000)}})
+		inv, n := vFindMsg[*wamp.Invocation](callee.drain())
+		vAssert("invocation", n == 1)
+		if n != 1 {
+			return
+		}
+		callee.send(&wamp.Yield{Request: inv.Request, Options: wamp.Dict{"progress": true}, Arguments: wamp.List{1}})
+		vQuiesce()
+		callee.send(&wamp.Yield{Request: inv.Request, Options: wamp.Dict{}, Arguments: wamp.List{2}})
+		vQuiesce()
+		vAdvance(int64(2500) * 1000000) // the timeout of the call passes while the result is retried
+		_, nint := vFindMsg[*wamp.Interrupt](callee.drain())
+		vAssert("no-interrupt-after-the-final-yield", nint == 0)
+		// the caller reads again
+		got := caller.drain()
+		vAdvance(int64(3000) * 1000000)
+		got = append(got, caller.drain()...)
+		vAssert("progress-then-final-result", len(got) == 2)
+		if len(got) == 2 {
+			r1, ok1 := got[0].(*wamp.Result)
+			r2, ok2 := got[1].(*wamp.Result)
+			vAssert("results-not-a-timeout-error", ok1 && ok2)
+			if ok1 && ok2 {
+				_, p2 := r2.Details["progress"]
+				vAssert("final-result-delivered", r1.Arguments[0] == any(1) && r2.Arguments[0] == any(2) && !p2)
+			}
+		}
+		vCover("blocked-caller-case")
+	} else {
+		caller := vAttach(r, "realm1", nil, 16)
+		vAssert("caller-attached", caller != nil)
+		if caller == nil {
+			return
+		}
+		caller.send(&wamp.Call{Request: 10, Procedure: "p", Options: wamp.Dict{"progress": true, "timeout": int64(2000)}, Arguments: wamp.List{1}})
+		inv, n := vFindMsg[*wamp.Invocation](callee.drain())
+		vAssert("invocation", n == 1)
+		if n != 1 {
+			return
+		}
+		// the callee has heard enough: final result before the caller's last chunk
+		callee.send(&wamp.Yield{Request: inv.Request, Options: wamp.Dict{}, Arguments: wamp.List{2}})
+		res, nres := vFindMsg[*wamp.Result](caller.drain())
+		vAssert("final-result-delivered", nres == 1 && res.Request == 10)
+		vAdvance(int64(2500) * 1000000)
+		_, nint := vFindMsg[*wamp.Interrupt](callee.drain())
+		vAssert("no-interrupt-after-the-final-yield", nint == 0)
+		vAssert("nothing-after-the-final-result", len(caller.drain()) == 0)
+		vCover("early-final-result-case")
+	}
+	vAdvance(int64(5000) * 1000000)
+	vAssert("callee-hears-nothing-more", len(callee.drain()) == 0)
+	r.Close()
+}
